@@ -29,7 +29,8 @@ CLAIM = ("Decides, for every relation in unit mode: additions/comparisons are di
          "magnitude (1e-4), no float()/int()/math.*/.magnitude reads a value that still carries a caller-chosen unit ratio; range warnings are "
          "guarded by `warn` and by strict comparisons at the published validity limits; Henry inverse helpers are P*H and c/H; the algebraic form of "
          "every correlation/relation (canonical sum-of-products form) and its coefficient tables equal the reference recorded from the cited publications "
-         "as transcribed in the pinned tree.")
+         "as transcribed in the pinned tree."
+         ' Shared rule A1: no swapped same-named arguments at resolved in-package call sites.')
 DOES_NOT_DECIDE = "numerical agreement with the publications beyond the coefficient tables and formula shapes frozen in C19-R5, the qualitative shape claims, convergence of the fixed-point iteration, numpy transcendental functions raising on scaled dimensionless quantities (a loud refusal)"
 ASSUMPTIONS = ["`quantities` unit/constant tables (introspected as the typing environment)", "`quantities` rescales the right operand of +/- to the left operand's unit",
                "validity ranges: Tanaka 0-40 C, Korson 0-100 C, Holz 0-100 C, Bradley-Pitzer 0-350 C, Myhre 0-50 C and w 0.1-0.9"]
